@@ -172,9 +172,23 @@ impl CacheCallback for HCallbackExitOnly {
     }
 }
 
+pub struct HCallbackExitEvict;
+impl CacheCallback for HCallbackExitEvict {
+    type Value = Val;
+    fn on_exit(&self, val: Option<Val>) {
+        log(EvKind::Cb { kind: CbKind::Exit, val, index: 0, conflict: 0, cost: 0, created_ns: 0, ttl_ns: 0 });
+    }
+    fn on_evict(&self, item: Item<Val>) {
+        let (c, t) = item.exp.verif_parts();
+        let item = mask_item(item);
+        log(EvKind::Cb { kind: CbKind::Evict, val: item.val, index: item.index, conflict: item.conflict, cost: item.cost, created_ns: c, ttl_ns: t });
+    }
+}
+
 pub enum HCallback {
     Full(HCallbackFull),
     ExitOnly(HCallbackExitOnly),
+    ExitEvict(HCallbackExitEvict),
 }
 impl CacheCallback for HCallback {
     type Value = Val;
@@ -182,18 +196,21 @@ impl CacheCallback for HCallback {
         match self {
             HCallback::Full(c) => c.on_exit(val),
             HCallback::ExitOnly(c) => c.on_exit(val),
+            HCallback::ExitEvict(c) => c.on_exit(val),
         }
     }
     fn on_evict(&self, item: Item<Val>) {
         match self {
             HCallback::Full(c) => c.on_evict(item),
             HCallback::ExitOnly(c) => c.on_evict(item),
+            HCallback::ExitEvict(c) => c.on_evict(item),
         }
     }
     fn on_reject(&self, item: Item<Val>) {
         match self {
             HCallback::Full(c) => c.on_reject(item),
             HCallback::ExitOnly(c) => c.on_reject(item),
+            HCallback::ExitEvict(c) => c.on_reject(item),
         }
     }
 }
@@ -800,6 +817,7 @@ pub fn build(cfg: &Cfg) -> Result<Box<dyn Api>, String> {
     let cb = match cfg.callback {
         CallbackMode::Full => HCallback::Full(HCallbackFull),
         CallbackMode::ExitOnly => HCallback::ExitOnly(HCallbackExitOnly),
+        CallbackMode::ExitEvict => HCallback::ExitEvict(HCallbackExitEvict),
     };
     if let KeyMode::Typed { ty } = &cfg.keys {
         return build_typed(cfg, ty, cb);
@@ -975,6 +993,10 @@ pub fn do_op(api: &dyn Api, client: usize, idx: usize, op: &Op) {
             rt::faults_off();
             Res::Unit
         }
+        Op::StallSelf { ns, skip } => {
+            rt::stall_self_later(*ns, *skip);
+            Res::Unit
+        }
         Op::Barrier | Op::DropHandle => Res::Unit,
     }));
     let res = match r {
@@ -1129,6 +1151,26 @@ pub fn run_plan(plan: &Plan) {
     log(EvKind::Checkpoint { id: cp, snap, quiescent: true });
     cp += 1;
 
+    if plan.has_tag("settle_ttl") {
+        // faults stop; every deadline still pending among the resident entries is allowed to
+        // pass, plus one bucket width and one cleanup interval, and the state is looked at again
+        rt::faults_off();
+        let now = rt::NOW.load(Ordering::SeqCst);
+        let last = snap_of(api.as_ref(), &plan.universe, &kb);
+        let horizon = last
+            .entries
+            .as_ref()
+            .map(|es| es.iter().filter(|e| e.ttl_ns > 0).map(|e| e.created_ns.saturating_add(e.ttl_ns)).filter(|d| *d < now + 40_000_000_000).max().unwrap_or(0))
+            .unwrap_or(0);
+        if horizon > 0 {
+            let until = horizon.max(now) + 1_000_000_000 + plan.cfg.cleanup_ms * 1_000_000 + 2_000_000;
+            do_op(api.as_ref(), 97, 0, &Op::Sleep { ns: until - now });
+            rt::quiesce();
+            let snap = snap_of(api.as_ref(), &plan.universe, &kb);
+            log(EvKind::Checkpoint { id: cp, snap, quiescent: true });
+            cp += 1;
+        }
+    }
     if plan.has_tag("final_probe") {
         // C20: the workers are alive in the only sense that matters
         let k = 7_777_777u64;
